@@ -16,6 +16,7 @@ type Lazy struct {
 	depth int
 	done  bool
 	val   Iface
+	root  bool
 	kvar  string // SMT variable holding the node's kind (0 null .. 5 object)
 	excl  uint8  // kinds already excluded on this path
 }
@@ -227,7 +228,11 @@ func (x *Exec) materialize(l *Lazy, kind int) {
 	case kObject:
 		m := &Map{Epoch: 0, Doc: true, PDepth: l.depth - 1, PID: l.id}
 		if l.depth > 0 {
-			m.Pend = append([]string{}, j.Keys...)
+			if l.root || j.InnerKeys == nil {
+				m.Pend = append([]string{}, j.Keys...)
+			} else {
+				m.Pend = append([]string{}, j.InnerKeys...)
+			}
 		}
 		l.val = Iface{T: tMapSI, V: m}
 	}
